@@ -302,11 +302,66 @@ func isNewFlag(v ssa.Value) bool {
 	if knownFuncs["field:"+rel+":"+n.Obj().Name()+"."+fv.Name()] {
 		return false
 	}
+	if !isOptionField(fv) {
+		return false
+	}
 	newFlagsSeen[rel+"."+n.Obj().Name()+"."+fv.Name()] = true
 	return true
 }
 
 var newFlagsSeen = map[string]bool{}
+
+// isOptionField: the field is set only where options are set - in constructors, option functions and setters
+// (New*/With*/Set*/apply*, their literals, composite literals) - never by the code that processes rows. A boolean
+// that the engine itself switches while it runs is state, and its true side is as much today's behaviour as its
+// false side.
+var optionFieldCache = map[*types.Var]bool{}
+var moduleFuncsForFlags []*ssa.Function
+
+func isOptionField(fv *types.Var) bool {
+	if r, ok := optionFieldCache[fv]; ok {
+		return r
+	}
+	res := true
+	for _, fn := range moduleFuncsForFlags {
+		if fn.Blocks == nil {
+			continue
+		}
+		root := fn
+		for root.Parent() != nil {
+			root = root.Parent()
+		}
+		name := root.Name()
+		setter := false
+		for _, p := range []string{"New", "new", "With", "with", "Set", "set", "apply", "Apply", "init", "Init", "configure", "Configure"} {
+			if strings.HasPrefix(name, p) {
+				setter = true
+			}
+		}
+		if setter {
+			continue
+		}
+		for _, b := range fn.Blocks {
+			for _, in := range b.Instrs {
+				st, ok := in.(*ssa.Store)
+				if !ok {
+					continue
+				}
+				fa, ok := st.Addr.(*ssa.FieldAddr)
+				if !ok || fieldVarOf(fa) != fv {
+					continue
+				}
+				// a store into an object that is being built (fresh literal) is initialisation
+				if _, fresh := fa.X.(*ssa.Alloc); fresh {
+					continue
+				}
+				res = false
+			}
+		}
+	}
+	optionFieldCache[fv] = res
+	return res
+}
 
 // load type-checks the module and builds its SSA form. When the tree declares functions that are not
 // in the inventory (normalize.go), their same-package calls are inlined first and the analysis runs
@@ -413,6 +468,8 @@ func load(repo string, overlay map[string][]byte, tags string) (*A, error) {
 		}
 		return a.ModFuncs[i].String() < a.ModFuncs[j].String()
 	})
+	moduleFuncsForFlags = a.ModFuncs
+	optionFieldCache = map[*types.Var]bool{}
 	return a, nil
 }
 
